@@ -2,8 +2,9 @@
 """Prints the prompt for a mutation ('seeding') sub-agent for one property and creates its worktree."""
 import json, subprocess, sys, os
 pid = sys.argv[1]
+rnd = sys.argv[2] if len(sys.argv) > 2 else ""
 p = next(json.loads(l) for l in open('/verif/properties.jsonl') if json.loads(l)['id'] == pid)
-wt = f"/tmp/seed_{pid}"
+wt = f"/tmp/seed{rnd}_{pid}"
 if not os.path.isdir(wt):
     subprocess.run(["git", "-C", "/repo", "worktree", "add", "--detach", "-f", wt, "HEAD"], check=True, capture_output=True)
 print(f"""You are testing how well a (hidden) verification suite detects regressions in the Go project minekube/gate (a Minecraft proxy). You work ONLY inside the scratch git worktree {wt} (a checkout of the project). Do not read or write anything under /verif or /repo; do not use the network (there is none).
@@ -13,17 +14,19 @@ Statement: {p['statement']}
 Quantified over: {p['quantifier']['text']}
 Code it is anchored in: {', '.join(p['anchors']['files'])}
 
+{"Note: other people have already seeded regressions for this property (you do not know which). Do NOT go for the single most obvious site or the most obvious off-by-one: pick a different mechanism - a second anchored file, a rarely taken branch, a version- or mode-specific path, an error/cleanup path, or two cooperating sites." if rnd else ""}
+
 Task: make ONE realistic change to the project's non-test source that BREAKS this property while
 (1) the project still compiles, and (2) the project's existing tests still pass. The change should look like a plausible refactoring slip or 'optimisation' by a maintainer, and it must need something specific to manifest — a particular interleaving, a fault at a particular point, a multi-step sequence of operations, an unusual input, a boundary value, or two cooperating sites that each look fine alone — not something ordinary use would expose at once. Do not add new exported API, do not touch test files of the project, keep the change small (a few lines, at most two sites).
 
-Then write a demonstration: a Go test file (a new file, e.g. {wt}/<pkg>/seed_demo_test.go in the appropriate package, may use unexported identifiers) or small program that FAILS with your change and PASSES without it. Verify both directions yourself (never use `git stash` - the stash is shared by all worktrees; use `git diff > /tmp/seed_{pid}.diff; git checkout -- <files>` to test the unchanged tree, then re-apply).
+Then write a demonstration: a Go test file (a new file, e.g. {wt}/<pkg>/seed_demo_test.go in the appropriate package, may use unexported identifiers) or small program that FAILS with your change and PASSES without it. Verify both directions yourself (never use `git stash` - the stash is shared by all worktrees; use `git diff > /tmp/seed{rnd}_{pid}_tmp/change.diff; git checkout -- <files>` to test the unchanged tree, then re-apply).
 
 How to build and test offline (do exactly this; never run go with -mod=mod inside the worktree):
-  cd {wt} && mkdir -p /tmp/seed_{pid}_mod && cp go.mod go.sum /tmp/seed_{pid}_mod/
+  cd {wt} && mkdir -p /tmp/seed{rnd}_{pid}_mod && cp go.mod go.sum /tmp/seed{rnd}_{pid}_mod/
   export GOTOOLCHAIN=local GOPROXY=off GOSUMDB=off GOFLAGS=
-  go1.26 build -modfile=/tmp/seed_{pid}_mod/go.mod ./...
-  go1.26 test -modfile=/tmp/seed_{pid}_mod/go.mod -vet=off -count=1 ./pkg/<affected packages>/...     (existing tests must pass WITH your change; run at least every package you touched and its direct dependants; running ./... takes a few minutes and is best)
-The machine is shared and busy: builds can take a minute or two. Other agents work in sibling directories: any temporary file you create must live under /tmp/seed_{pid}_tmp/ (create it), never directly in /tmp, and never delete anything in /tmp that you did not create.
+  go1.26 build -modfile=/tmp/seed{rnd}_{pid}_mod/go.mod ./...
+  go1.26 test -modfile=/tmp/seed{rnd}_{pid}_mod/go.mod -vet=off -count=1 ./pkg/<affected packages>/...     (existing tests must pass WITH your change; run at least every package you touched and its direct dependants; running ./... takes a few minutes and is best)
+The machine is shared and busy: builds can take a minute or two. Other agents work in sibling directories: any temporary file you create must live under /tmp/seed{rnd}_{pid}_tmp/ (create it), never directly in /tmp, and never delete anything in /tmp that you did not create.
 
 Deliverables, left in the worktree when you finish (do not commit):
   - your source change applied in the working tree (only non-test files modified),
